@@ -8,7 +8,7 @@ from .. import tlc
 from ..common import Report, pmap
 from ..e2e import base_scenario
 
-FAMILY = (r"\.pc$|\.step$|^timer\.within_run|^force\.(sees_all|len|at_current)|^output\.snap|^move\.pre|^ibm\.(sees|once)|"
+FAMILY = (r"\.pc$|\.step$|^timer\.within_run|^force\.(sees_all|len|at_current)|^output\.snap|^move\.pre|^ibm\.(sees|once|module)|"
           r"^close\.|^files\.closed_once|^vel\.pc|^run\.crashed")
 DRIVERS = {"e2e": ("harness.e2e", "run_e2e", "LadimTrace", FAMILY)}
 
